@@ -17,6 +17,7 @@ META = dict(
     design="6/C16")
 HEADER = "From Dasp Require Import Graph.NodesRunU. Require Import Uint63."
 CHECK = "ucheck"
+RUN_VO = "theories/Graph/NodesRunU.vo"
 LEN = 64
 QNAN = 0x7FC00000
 WRAP_NAMES = {1: "Box", 2: "&mut", 3: "BoxedNode::new", 4: "BoxedNodeSend::new", 5: "dyn FnMut", 6: "dyn Fn", 7: "fn pointer"}
@@ -357,6 +358,10 @@ def shrink(it, binpath):
 def main(rep, tier, seed):
     rng = F.Rng(seed)
     info = F.standard_proof_phase(rep, PROP, allowed_axioms=F.AX_REALS)
+    rok, rlog = F.coq_make(RUN_VO)   # the executable interface is not in the closure of props/C16.vo
+    if not rok:
+        rep.violation("model_build", {"kind": "the executable model does not compile", "target": RUN_VO, "log_tail": rlog[-4000:]}, no_input=True)
+        return finish(rep, info, [], [], {}, {})
     ok, blog, binpath = F.harness_build("c16")
     if not ok:
         rep.violation("harness_build", {"kind": "harness does not build against /repo", "log": blog[-4000:]}, no_input=True)
@@ -442,6 +447,7 @@ def replay(path):
     c = j["case"]
     c["spec"] = tuplify(c["spec"])
     it = build(c)
+    F.coq_make(RUN_VO)
     ok, blog, binpath = F.harness_build("c16")
     rc, out, _ = F.run_bin(binpath, [it["line"]])
     _, model = F.coq_eval("c16", HEADER, f"urun_case ({it['coq']})")
